@@ -781,7 +781,6 @@ func gsSlices(t *tr, b *strings.Builder) {
 		{"github.com/yandex/pandora/components/providers/grpc", "Ammo", "Reset", "srcGrpcAmmoReset", true, ""},
 		{"github.com/yandex/pandora/components/providers/grpc", "Provider", "Release", "srcGrpcProviderRelease", true, ""},
 		// round 6: the sample the engine reports for a shot it does not send
-		{"github.com/yandex/pandora/core/aggregator/netsample", "", "DiscardedShootSample", "srcDiscardedShootSample", true, ""},
 		{"github.com/yandex/pandora/core/aggregator/netsample", "Sample", "SetUserNet", "srcSetUserNet", true, ""},
 	}
 	cache := map[string]*packages.Package{}
